@@ -26,7 +26,7 @@ def col_slices(x):
     return {c: slice(o, o + d) for c, (o, d) in lay.items()}
 
 
-def check_svd_values(sr, sym, x):
+def check_svd_values(sr, sym, x, tol_rel=1e-7):
     import symmray.linalg as la
     fails = []
     try:
@@ -35,7 +35,7 @@ def check_svd_values(sr, sym, x):
         return ['svd raised %s: %s' % (type(e).__name__, e)], None
     d = gen.densify(x)
     scale = max(1.0, float(np.max(np.abs(d))) if d.size else 1.0)
-    tol = 1e-7 * scale
+    tol = tol_rel * scale
     got = np.sort(np.concatenate([np.asarray(b, dtype='float64').reshape(-1) for b in s.blocks.values()]) if s.blocks else np.zeros(0))
     want = np.sort(np.linalg.svd(d, compute_uv=False))
     g, w = got[got > tol], want[want > tol]
@@ -173,6 +173,18 @@ def run(ctx):
             found.append((fails[0], {'op': 'svd' if fails[0].startswith('svd') else 'norm', 'failures': fails[:6], 'symmetry': sym, 'input': rec}))
         if out is not None and k % 3 == 0:
             exprs.append(c11.expr_svd(sym, x, *out)); meta.append(('svd value container', sym, k))
+        # the same matrix in single precision (float32 / complex64): the values are those of the dense matrix to single precision
+        if k % 4 == 1:
+            try:
+                sdt = 'complex64' if cplx else 'float32'
+                x32 = x.copy_with(blocks={kk: np.asarray(v).astype(sdt) for kk, v in x.blocks.items()})
+                ctx.count()
+                stats['single_precision'] = stats.get('single_precision', 0) + 1
+                f32, _ = check_svd_values(sr, sym, x32, tol_rel=2e-4)
+                if f32:
+                    found.append((f32[0], {'op': 'svd', 'dtype': sdt, 'failures': f32[:6], 'symmetry': sym, 'input': rec}))
+            except Exception as e:
+                found.append(('svd of a %s matrix raised %s: %s' % (sdt, type(e).__name__, e), {'op': 'svd', 'dtype': sdt, 'symmetry': sym, 'input': rec}))
         if k < 2:
             ctx.sample({'symmetry': sym, 'fermionic': ferm, 'sectors': [str(s) for s in x.blocks], 'block_shapes': [list(np.shape(b)) for b in x.blocks.values()]})
     for k in range(n_herm):
